@@ -572,6 +572,9 @@ func runDeref(c *Check, rule string, entries []*ssa.Function, gr *guardResult, o
 			}
 		})
 		ds := derefsIn(p, f)
+		for _, ins := range ignoredFoundFlags(p, f) {
+			ds = append(ds, derefFinding{f, ins, "found-flag-ignored", "the found flag returned by " + callName(ins.(*ssa.Call)) + " is never read while the value is used: on a miss the placeholder value is taken for a result"})
+		}
 		for _, d := range ds {
 			key := fmt.Sprintf("%s|%s", fnName(f), d.kind)
 			c.Ob(rule, key, p.pos(d.ins.Pos()), Flag, d.what, chainTo(all, f, p)...)
@@ -878,4 +881,56 @@ func usedBeforeErrCheck(ex *ssa.Extract) ssa.Instruction {
 		}
 	}
 	return nil
+}
+
+// ignoredFoundFlags: calls of repository functions returning (value, bool)
+// whose bool is never read while the value is used.
+func ignoredFoundFlags(p *Program, f *ssa.Function) []ssa.Instruction {
+	var out []ssa.Instruction
+	eachInstr(f, func(_ *ssa.BasicBlock, i ssa.Instruction) {
+		call, ok := i.(*ssa.Call)
+		if !ok {
+			return
+		}
+		sc := call.Call.StaticCallee()
+		if sc == nil || !isRepoFn(sc) || sc.Signature.Results().Len() != 2 {
+			return
+		}
+		if b, ok := sc.Signature.Results().At(1).Type().Underlying().(*types.Basic); !ok || b.Kind() != types.Bool {
+			return
+		}
+		// a found flag: the callee has a return with the constant false and one with the constant true
+		sawT, sawF := false, false
+		for _, b := range sc.Blocks {
+			if ret, ok := b.Instrs[len(b.Instrs)-1].(*ssa.Return); ok && len(ret.Results) == 2 {
+				if cv, ok := ret.Results[1].(*ssa.Const); ok && cv.Value != nil {
+					if cv.Value.String() == "true" {
+						sawT = true
+					} else if cv.Value.String() == "false" {
+						sawF = true
+					}
+				}
+			}
+		}
+		if !sawT || !sawF {
+			return
+		}
+		if call.Referrers() == nil {
+			return
+		}
+		valUsed, okUsed := false, false
+		for _, r := range *call.Referrers() {
+			if ex, ok := r.(*ssa.Extract); ok && ex.Referrers() != nil && len(*ex.Referrers()) > 0 {
+				if ex.Index == 0 {
+					valUsed = true
+				} else {
+					okUsed = true
+				}
+			}
+		}
+		if valUsed && !okUsed {
+			out = append(out, i)
+		}
+	})
+	return out
 }
